@@ -36,7 +36,10 @@ FAHRENHEIT = PU("degF", "Fahrenheit", Fraction(5, 9), 45967, Fraction(5, 900))
 MILLIK = PU("mK", "Milli<Kelvins>", Fraction(1, 1000))
 CENTIK = PU("cK", "Centi<Kelvins>", Fraction(1, 100))
 KILOK = PU("kK", "Kilo<Kelvins>", 1000)
+KILOC = PU("kdegC", "Kilo<Celsius>", 1000, 27315, Fraction(1, 100))      # a prefix scales the unit, the origin stays 273.15 K
+MILLIC = PU("mdegC", "Milli<Celsius>", Fraction(1, 1000), 27315, Fraction(1, 100))
 LIB = [KELVINS, CELSIUS, FAHRENHEIT, MILLIK, CENTIK, KILOK]
+LIB_EXT = LIB + [KILOC, MILLIC]
 
 
 def gen_unit(i, a, b, c, d):
